@@ -139,6 +139,25 @@ def gen_C17():
                 if k >= 0:
                     rxv = 1 if re.search(r"if\s+pending_wake\s*\{\s*this\.ring\.wake\(\)\s*;?\s*\}", arm[:k]) else 0
     f.n("rx_early_return_wakes", rxv, rxp + " macro poll_ring!")
+    # platform tx queue: the two wake decisions of TxQueue
+    txp = "quic/s2n-quic-platform/src/socket/io/tx.rs"
+    tx = read(txp)
+    spill = clamp = None
+    if tx is not None:
+        tx = strip_comments(tx)
+        pb = fn_body(tx, "push")
+        if pb is not None:
+            m = re.search(r"else\s*\{(.*?)self\s*\.\s*channel_index\s*\+=\s*1", pb, re.S)
+            if m:
+                spill = 1 if re.search(r"self\s*\.\s*flush_channel\s*\(\s*\)", m.group(1)) else 0
+        fb = fn_body(tx, "flush_channel")
+        if fb is not None and re.search(r"\.\s*wake\s*\(\s*\)", fb):
+            if re.search(r"channels\s*\.\s*get_mut\s*\(\s*self\s*\.\s*channel_index\s*\)", fb):
+                clamp = 0
+            elif re.search(r"channel_index\s*\.\s*min\s*\(\s*self\s*\.\s*channels\s*\.\s*len\s*\(\s*\)\s*-\s*1\s*\)", fb):
+                clamp = 1
+    f.n("tx_spill_flushes", spill, txp + " fn push")
+    f.n("tx_flush_clamps", clamp, txp + " fn flush_channel")
     # AtomicWaker (external crate re-exported by sync/primitive.rs): version from Cargo.lock
     lock = read("Cargo.lock")
     aw_src, aw_origin = None, "atomic-waker (not found)"
